@@ -55,7 +55,7 @@ class ProgBase(nn.Module):
           if not isinstance(key, jax.core.Tracer):     # Scope.param re-evaluates the initialiser abstractly for its shape check
             TRACE.append(('param', list(path), nm, kd(key)))
           return jnp.full(shape, c, dtype=jnp.int64)
-        locals_[xv] = self.param(nm, init, (n,))
+        locals_[xv] = self.param(nm, init, (n,) if n else jnp.shape(x))     # n = 0: shaped like the input (a Dense kernel)
       elif k == 'var':
         _, xv, col, nm, n, c = s
         v = self.variable(col, nm, lambda n=n, c=c: jnp.full((n,), c, dtype=jnp.int64))
